@@ -18,9 +18,10 @@
        and covered by the correspondence run;
      * a slice expression b[i:j] panics when j > len(b) (the harness builds byte slices with
        cap = len);
-     * [fx] selects the behaviour after the repairs prepared in /verif/fixes/C17-*.patch
-       (false = the code without them).  Both variants are kept so that the check decides which
-       one the tree under test implements. *)
+     * [fx = true] is the code as it is now in /repo, i.e. with the repairs 0d53a20 (decimal text), f016b97
+       (decimal precision above 18 refused) and 951349c (empty bytes in JSON); the correspondence run compares
+       the implementation with this variant.  [fx = false] is the code before those repairs, kept for the
+       `_before_repair` regression witnesses. *)
 From Coq Require Import List NArith ZArith Bool Lia.
 From OC Require Import Base.Bytes.
 Import ListNotations.
